@@ -502,6 +502,7 @@ func (x *Exec) resetPath() {
 	x.observes = x.observes[:0]
 	x.reached = map[string]bool{}
 	x.mapOrder = 1
+	x.mapRot = -1
 	x.nextMap = 0
 	x.fileData = map[string]fileStub{}
 	x.hb = nil
